@@ -13,6 +13,7 @@ A program OCCA rejects is outside the property's quantifier ("that OCCA parses s
 import json
 import os
 import re
+import time
 import select
 import subprocess
 import threading
@@ -39,6 +40,8 @@ REJECTED_CLASSES = {
     "bare-unsigned": "`unsigned x` without int/long/char is rejected ('Expected a type')",
     "short-int": "`short int x` is rejected as a declaration statement ('Expected a [;]')",
     "assign-in-ternary": "`a ? b = 1 : 2` is rejected (?: operands with an unparenthesised assignment)",
+    "ternary-in-ternary-middle": "`a ? b ? 1 : 2 : 3` is rejected ('Unable to form an expression'); the generator parenthesises it",
+    "postfix-before-close": "`(a++)`, `p[a--]`, `(1 + a++) * 2`: x++ / x-- directly before ) or ] is rejected ('Ambiguous operator')",
 }
 
 
@@ -61,8 +64,8 @@ class PrintWorker:
     """one w_print process; requests are pipelined; restarts after a crash and names the crashing request"""
     CRASH_BUDGET = 6
 
-    def __init__(self, binary, wd, tag):
-        self.binary, self.wd, self.tag = binary, wd, str(tag)
+    def __init__(self, binary, wd, tag, fresh=False):
+        self.binary, self.wd, self.tag, self.fresh = binary, wd, str(tag), fresh
         self.cur = os.path.join(wd, "w_print_%s.cur" % self.tag)
         self.errlog = os.path.join(wd, "w_print_%s.err" % self.tag)
         self.p = None
@@ -71,6 +74,8 @@ class PrintWorker:
     def _start(self):
         env = vlib.base_env(self.wd, "w" + self.tag)
         env["W_PRINT_CUR"] = self.cur
+        if self.fresh:
+            env["W_PRINT_FRESH"] = "1"
         # leaks on OCCA's error paths are not part of this property
         env["ASAN_OPTIONS"] = env["ASAN_OPTIONS"].replace("detect_leaks=1", "detect_leaks=0") + ":hard_rss_limit_mb=3072"
         self.errf = open(self.errlog, "w")
@@ -283,9 +288,14 @@ def run_exe(exe, ks, timeout=600):
 # ------------------------------------------------------------------------------------------------
 # the oracles
 # ------------------------------------------------------------------------------------------------
+TIMES = {"occa": 0.0, "g++": 0.0, "run": 0.0, "generate": 0.0, "reduce": 0.0}
+
+
 def judge(worker, wd, tag, items, lock=None):
     """-> list of verdict dicts {"status": ok|fail|rejected|inconclusive, "kind", "what"}"""
+    t_ = time.time()
     answers = worker.batch([("q%d" % i, it["src"]) for i, it in enumerate(items)])
+    TIMES["occa"] += time.time() - t_
     verdicts = [None] * len(items)
     entries = []
     for i, (it, a) in enumerate(zip(items, answers)):
@@ -340,7 +350,9 @@ def semantic(wd, tag, entries):
     """O2 on [(i, item, printed)] -> {i: verdict}"""
     out = {}
     base = os.path.join(wd, "tu_%s" % tag)
+    t_ = time.time()
     exe, log = gxx(base, build_tu(entries))
+    TIMES["g++"] += time.time() - t_
     groups = [(exe, entries)]
     if exe is None:
         groups = []
@@ -360,7 +372,9 @@ def semantic(wd, tag, entries):
             else:
                 groups.append((e1, [(i, it, printed)]))
     for exe_g, ents in groups:
+        t_ = time.time()
         results, problems = run_exe(exe_g, [i for i, _, _ in ents])
+        TIMES["run"] += time.time() - t_
         for i, it, printed in ents:
             if i in problems:
                 w, txt = problems[i]
@@ -581,14 +595,14 @@ def run(prop, tier, replay, t0):
     os.makedirs(rep_dir, exist_ok=True)
     workers = []
     try:
-        def new_worker(tag):
-            w = PrintWorker(binary, wd, tag)
+        def new_worker(tag, fresh=False):
+            w = PrintWorker(binary, wd, tag, fresh)
             workers.append(w)
             return w
 
         if replay:
             r, it = load_replay(os.path.abspath(replay))
-            v = judge(new_worker("user"), wd, "user", [it])[0]
+            v = judge(new_worker("user", fresh=True), wd, "user", [it])[0]
             print(it["src"])
             print("replay verdict: %s %s %s" % (v["status"], v.get("kind", ""), v.get("what", "")))
             if v["status"] == "fail":
@@ -606,7 +620,7 @@ def run(prop, tier, replay, t0):
             avoid = set(x for x in dev_avoid.split(",") if x)
 
         # ---- saved replays
-        w0 = new_worker("rp")
+        w0 = new_worker("rp", fresh=True)
         known_files = {}
         for f in findings:
             p = os.path.normpath(os.path.join(vlib.VERIF, f.replay))
@@ -657,7 +671,9 @@ def run(prop, tier, replay, t0):
             if all(t == texts[0] for t in texts):
                 return        # Hypothesis' first, all-minimal example: copies of one program; not counted
             batches.append(descs)
+        t_ = time.time()
         campaign()
+        TIMES["generate"] = time.time() - t_
         generated_examples = len(batches)
         flat = [d for b in batches for d in b]
         batches = [flat[i:i + TU_GROUP] for i in range(0, len(flat), TU_GROUP)]
@@ -735,12 +751,24 @@ def run(prop, tier, replay, t0):
                              (out.extra["rejected_by_occa"], generated))
 
         # ---- triage: one replay per failure kind; the first 3 kinds are reduced by hand
-        bykind = {}
+        # confirmation and reduction use a worker that builds a new parser object for every parse
+        wr = new_worker("red", fresh=True)
+        bykind0 = {}
         for it, v in fails:
-            bykind.setdefault(v["kind"], []).append((it, v))
-        wr = new_worker("red")
+            bykind0.setdefault(v["kind"], []).append((it, v))
+        bykind = {}
+        for kind, fl in sorted(bykind0.items()):
+            fl.sort(key=lambda x: len(x[0]["src"]))
+            for n, (it, v) in enumerate(fl[:3]):
+                v2 = judge(wr, wd, "conf_%s_%d" % (kind.replace("-", "_"), n), [it])[0]
+                if v2["status"] == "fail":
+                    bykind[kind] = [(it, v2)] + [x for x in fl if x[0] is not it]
+                    break
+            else:
+                out.notes.append("%d failure(s) of kind %s were not confirmed with fresh parser objects; not reported: %s" %
+                                 (len(fl), kind, fl[0][1]["what"][:200]))
         for ci, (kind, fl) in enumerate(sorted(bykind.items())):
-            it, v = min(fl, key=lambda x: len(x[0]["src"]))
+            it, v = fl[0]
             d = it["desc"]
             if ci < 3:
                 cnt = [0]
@@ -750,7 +778,9 @@ def run(prop, tier, replay, t0):
                     vv = judge(wr, wd, "red%d_%d" % (ci, cnt[0]), [make_item(cand)])[0]
                     # the reduced program must stay a valid C program (g++ accepts and runs the original text)
                     return vv["status"] == "fail" and vv["kind"] == kind and vv.get("o2") != "inconclusive:generator"
+                t_ = time.time()
                 d = reduce_desc(d, still_fails)
+                TIMES["reduce"] += time.time() - t_
                 it2 = make_item(d)
                 v2 = judge(wr, wd, "red%d_f" % ci, [it2])[0]
                 if v2["status"] == "fail":
@@ -764,6 +794,7 @@ def run(prop, tier, replay, t0):
         out.extra["engine"] = ("Hypothesis %s st.randoms-driven AST generator, %d examples x %d programs; %d w_print workers; "
                                "g++ as reference semantics, %d programs per TU" % (__import__("hypothesis").__version__, generated_examples, bsize, NWORKERS, TU_GROUP))
         out.extra["failing_programs"] = len(fails)
+        out.extra["phase_seconds_summed_over_threads"] = {k: round(v, 1) for k, v in TIMES.items()}
         return vlib.finish(prop, tier, "exploration", out, RULE, t0, ASSUME)
     finally:
         for w in workers:
